@@ -107,9 +107,12 @@ json refusal(Rng &r, const std::vector<OptRef> &refs, int cl)
 			if (t != "sec" || !(fl & F_MULTI) || !(fl & F_TITLE))
 				continue;
 			s["op"] = "addtsec";
-			s["title"] = "dup";
+			{
+				static const char *dups[] = {"dup", "dup", "", "x|y", "it's"}; // the empty title is a title like any other
+				s["title"] = dups[r.below(5)];
+			}
 			s["refusal"] = "duplicate_title";
-			s["needs_title"] = "dup";
+			s["needs_title"] = s["title"];
 			return s;
 		case 5: // remove what is not there
 			if (t != "sec")
@@ -126,12 +129,18 @@ json refusal(Rng &r, const std::vector<OptRef> &refs, int cl)
 				s["title"] = "no-such-title";
 				break;
 			default:
-				if (!(fl & F_MULTI))
-					continue;
 				s["op"] = "rmsec";
 				{
-					static const char *badidx[] = {"=77", "=1st", "=0x", "=2.0", "=-1", "=1 ", "=1e0"};
-					s["name"] = ref.decl["n"].get<std::string>() + ((fl & F_TITLE) ? "=no-such-title" : badidx[r.below(7)]);
+					static const char *badidx[] = {"=77", "=1st", "=0x", "=2.0", "=-1", "=1 ", "=1e0", "="};
+					// a qualifier on a single section never resolves; on a multi section a missing title or a malformed index
+					std::string q = !(fl & F_MULTI) ? (r.chance(1, 2) ? "=zz" : "=0") : (fl & F_TITLE) ? (r.chance(1, 4) ? "=" : "=no-such-title") : badidx[r.below(8)];
+					std::string nm = ref.decl["n"].get<std::string>() + q;
+					// half of the nested ones are addressed by one path from the top
+					if (!ref.at.empty() && r.chance(1, 2)) {
+						nm = path_prefix(r, ref.at) + nm;
+						s["at"] = json::array();
+					}
+					s["name"] = nm;
 				}
 				break;
 			}
@@ -402,17 +411,15 @@ JudgeOut judge(const json &plan)
 				else if (o.op == "rmtsec")
 					must_fail = !has_title(st.value("title", std::string()));
 				else {
-					std::string nm = st.value("name", std::string());
-					size_t eq = nm.find('=');
-					if (eq == std::string::npos || nm.find_first_of("|'\\\"", eq) != std::string::npos)
-						must_fail = false;
-					else {
-						std::string q = nm.substr(eq + 1);
-						char *end = nullptr;
-						long v = strtol(q.c_str(), &end, 0);
-						bool numeral = !q.empty() && end && *end == 0;
-						must_fail = !has_title(q) && !(numeral && v >= 0 && (size_t)v < n);
-					}
+					// remove by path: the store model (the one C09 checks the library against) resolves the path
+					store::Model M;
+					for (auto &s0 : steps)
+						if (s0["op"] == "init" && s0.value("cl", 0) == st.value("cl", 0) && s0.value("c", 0) == st.value("c", 0))
+							M.ctx_flags = s0.value("flags", 0);
+					json copy = before;
+					std::string why;
+					bool fresh = false;
+					must_fail = M.apply(copy, st, &why, &fresh) == store::FAIL;
 				}
 			}
 			if (kind.compare(0, 4, "veto") == 0) {
